@@ -178,7 +178,7 @@ def run_sim(tier, repo, procs=16):
     return tot
 
 
-RE = {"quick": [dict(name="ops-re3", N=3, MaxLen=2)], "thorough": [dict(name="ops-re3", N=3, MaxLen=3), dict(name="ops-re4", N=4, MaxLen=1)]}
+RE = {"quick": [dict(name="ops-re3", N=3, MaxLen=2)], "thorough": [dict(name="ops-re3", N=3, MaxLen=3), dict(name="ops-re4", N=4, MaxLen=2)]}
 RE_OTHERS = ("node", "anynode", "symlink", "adv:alwayseq:mixin", "adv:falsy:light")
 _rememo = {}
 
@@ -225,8 +225,8 @@ def run_re(tier, repo=None, procs=16):
         for ai, att in enumerate(out["attention"][:400]):
             o = att["obs"]
             eid = "r%d.%d" % (oi, ai)
-            events.append({"id": eid, "k": o["k"], "n": o["n"], "v": o.get("v", "Nil"), "xs": list(o.get("xs", [])),
-                           "plan": {"ak": o["plan"]["ak"], "am": o["plan"]["am"], "av": o["plan"]["av"]},
+            events.append({"id": eid, "k": o["k"], "n": o["n"], "v": o.get("v", "Nil"), "xs": list(o.get("xs", [])), "bad": False, "sure": True,
+                           "plan": {"ak": o["plan"]["ak"], "am": o["plan"]["am"], "av": o["plan"]["av"], "akind": o["plan"].get("akind", "sp"), "ar": bool(o["plan"].get("ar"))},
                            "strict": not att["family"].endswith("light"), "asrt": bool(out["asrt"]),
                            "prepar": o["prepar"], "prech": o["prech"], "postpar": o["postpar"], "postch": o["postch"],
                            "exc": o["exc"], "src": int(o.get("src", 0)),
